@@ -722,12 +722,13 @@ class Judge:
             return
         self.seen_fail.add(key)
         body, bits = self.shrink(sh, case, out, level, klass)
-        canon['shape'] = bits
+        # (the session-shape bits this particular body depends on are replay information: which bits they are depends on
+        #  the shape the case was first met on, so they are kept out of the canonical form that findings are matched on)
         self.ctx.failures.append(
             Failure(
                 'update-class',
                 canon,
-                {'type': case.ty, 'body': body.hex(), 'shape': sh.name, 'stream': case.stream, 'label': case.label, 'level': level},
+                {'type': case.ty, 'body': body.hex(), 'shape': sh.name, 'shape_bits_that_matter': bits, 'stream': case.stream, 'label': case.label, 'level': level},
                 f'{what}: message type {case.ty}, {case.stream}/{case.label}, {len(case.body)} bytes (shrunk to {len(body)}) on session {sh.name}: {out.canon() if out else ""} {out.note[:160] if out else ""}',
             )
         )
@@ -736,11 +737,12 @@ class Judge:
         """Smaller body with the same outcome signature; the session-shape bits the outcome depends on."""
         if out is None:
             return case.body, sh.bits()
-        use_rm = level.startswith('read_message') or level == 'handler'
+        use_rm = level.startswith('read_message') or level.startswith('handler')
+        fast = level.endswith('fast-path')
         need_ref = klass == 'valid-refused' and case.ty == 2 and self.ctx.driver_ok
 
         def same(shape: T.Shape, body: bytes) -> bool:
-            o = T.read_message(shape, case.ty, body) if use_rm else T.unpack_forced(shape, case.ty, body)
+            o = T.read_message(shape, case.ty, body, fast=fast) if use_rm else T.unpack_forced(shape, case.ty, body)
             if not (o.cls == out.cls and o.detail == out.detail and (o.cls != 'notify' or slug(o.note) == slug(out.note))):
                 return False
             return self.ref_ok(shape, body) if need_ref else True
@@ -802,13 +804,9 @@ class Judge:
         mine = sh.bits()
         for k, v in mine.items():
             # does the outcome change when this bit alone changes?
-            for spec in T.SHAPE_SPECS:
-                other = T.build_shape(spec)
-                ob = other.bits()
-                if ob[k] != v and all(ob[j] == mine[j] for j in ob if j != k):
-                    if len(body) + 19 <= other.msg_size and not same(other, body):
-                        bits[k] = v
-                    break
+            other = T.build_shape(T.flip(sh, k))
+            if len(body) + 19 <= other.msg_size and not same(other, body):
+                bits[k] = v
         return body, bits
 
     # -- per case --
@@ -837,7 +835,7 @@ class Judge:
             if o.cls == 'notify' and tuple(int(x) for x in o.detail.split()) not in self.defined:
                 self.fail(sh, case, 'undefined-code', 'NOTIFICATION outside the defined table', o, level)
         # 2. valid by construction, refused
-        if case.valid is True and case.ty != 2:
+        if case.valid is True and case.ty != 2 and o1.cls not in bad:
             o = o1 if o1.cls == 'notify' else o2 if o2.cls == 'notify' else None
             if o is not None:
                 self.fail(sh, case, 'valid-refused', 'valid message refused', o, 'unpack' if o is o1 else 'read_message', {'label': case.label})
@@ -884,7 +882,7 @@ class Judge:
                     ctx.count('canon:ref-ok/' + why)
                     continue
                 o = o1 if o1.cls == 'notify' else o2 if o2.cls == 'notify' else None
-                if o is not None:
+                if o is not None and o1.cls not in ('raised', 'recursion', 'timeout'):  # (a raw exception is already reported, with what read_message makes of it)
                     self.fail(sh, case, 'valid-refused', 'valid UPDATE refused (the RFC reference decoder accepts it)', o, 'unpack' if o is o1 else 'read_message')
                 if impl_ok:
                     ctx.count('agree:ok/decoded')
@@ -1010,7 +1008,7 @@ def run(ctx: Ctx) -> None:
 
     # 0. corpus first
     for c in load_corpus():
-        sh = T.build_shape(next(s for s in T.SHAPE_SPECS if s[0] == c['shape']))
+        sh = T.build_shape(next(s for s in T.ALL_SPECS if s[0] == c['shape']))
         case = Case(c['type'], bytes.fromhex(c['body']), 'corpus', c.get('label', c['_file']), c.get('valid'))
         o1, o2 = judge.run_case(sh, case)
         want = c.get('expect')
@@ -1068,6 +1066,14 @@ def run(ctx: Ctx) -> None:
                 judge.fail(sh, Case(ty, body, 'state', via), o.cls, 'raised something that is not a NOTIFICATION', o, via)
             elif o.cls == 'notify' and tuple(int(x) for x in o.detail.split()) not in judge.defined:
                 judge.fail(sh, Case(ty, body, 'state', via), 'undefined-code', 'NOTIFICATION outside the defined table', o, via)
+    # the fast path of read_message (adj-rib-in off, no API consumer, route logging off): UPDATEs are not decoded,
+    # the shared `_UPDATE` object goes to the handlers of the peer loop instead
+    for ty, body, label in [(2, update(base_attrs(sh), v4nlri(1)), 'update'), (2, bytes(4), 'eor-v4'), (2, update(attr(0x80, 15, u16(2) + bytes([1]))), 'eor-v6'), (2, b'\x00', 'short'), (4, b'', 'keepalive'), (5, u16(1) + bytes([0, 1]), 'refresh')]:
+        o = T.read_message(sh, ty, body, fast=True)
+        ctx.evaluations += 1
+        ctx.count(f'fast-path:{o.key()}')
+        if o.cls in ('raised', 'recursion', 'timeout'):
+            judge.fail(sh, Case(ty, body, 'fast-path', label, True), o.cls, 'raised something that is not a NOTIFICATION — in the peer loop, on the undecoded fast path of read_message (adj-rib-in false, no API): the session is reset with no NOTIFICATION', o, o.stage + ':fast-path')
     # work
     measure_work(ctx, judge, shapes if not quick else [shapes[1], shapes[6]])
     if judge.lenient:
@@ -1079,10 +1085,10 @@ def run(ctx: Ctx) -> None:
 def replay(path: str) -> int:
     data = json.loads(open(path).read())
     rp = data['replay']
-    sh = T.build_shape(next(s for s in T.SHAPE_SPECS if s[0] == rp['shape']))
+    sh = T.build_shape(next(s for s in T.ALL_SPECS if s[0] == rp['shape']))
     body = bytes.fromhex(rp['body'])
     o1 = T.unpack_forced(sh, rp['type'], body)
-    o2 = T.read_message(sh, rp['type'], body)
+    o2 = T.read_message(sh, rp['type'], body, fast=rp.get('level', '').endswith('fast-path'))
     print('type', rp['type'], 'shape', sh.name, 'body', len(body), 'bytes')
     print('Message.unpack + forced lazy parts:', o1.canon(), o1.note)
     print('Protocol.read_message             :', o2.canon(), o2.note)
